@@ -14,7 +14,9 @@
 //     mapping, so a fatal death (out of memory, runaway loop) yields the exact
 //     (type, input) and the shard is resumed with that type quarantined,
 //  5. suffix independence,
-//  6. allocation bound (TotalAlloc delta, single-threaded children).
+//  6. allocation bound (TotalAlloc delta, single-threaded children),
+//  7. encoder result lifetime: results held across later encoder calls stay
+//     intact and independent of each other (alias.go).
 //
 // Workloads: seeded boundary-biased values per type; mutations of their
 // encodings; exhaustive enumeration of all byte strings of length <= 3 (and
@@ -30,6 +32,7 @@ import (
 	"os"
 	"path/filepath"
 	"reflect"
+	"runtime"
 	"runtime/debug"
 	"runtime/metrics"
 	"strconv"
@@ -93,7 +96,7 @@ func main() {
 	if n := r.Get("info_raw_value_prefixed_single_byte_accepted"); n > 0 {
 		r.Note("informational, not a violation: Stream.Raw / rlp.RawValue (also as list elements) took a 0x81-prefixed byte < 0x80 verbatim %d times (e.g. 8105, c28105); raw values are opaque pass-throughs, re-encode identity holds", n)
 	}
-	evals := r.Get("bytes_cases") + r.Get("value_roundtrips")
+	evals := r.Get("bytes_cases") + r.Get("value_roundtrips") + r.Get("alias_values_held")
 	nontriv := r.Get("exh_nontrivial_pairs") + int64(r.DistinctCount("nontrivial_generated_pairs")) + int64(r.DistinctCount("value"))
 	exh := "all byte strings of length <= 3 against every target type"
 	if r.Thorough() {
@@ -107,6 +110,7 @@ func main() {
 			"Byte strings: exhaustive enumeration of " + exh + " (each pair visited once; a type whose decoder killed a child process is quarantined for the rest of that shard and in shards started later, see observed.pairs_skipped_quarantined_type); " +
 			"one mutation of each of " + strconv.Itoa(len(mutKinds)) + " kinds of the reference encoding of seeded boundary-biased values; " +
 			"structure-aware headers claiming sizes up to 2^64-1 (bare and wrapped in lists), deep nesting, many tiny elements. " +
+			"Encoder lifetime: windows of 2..16 back-to-back encoder calls (EncodeToBytes / EncodeToReader / Encode; header-less values mixed with lists; every 4th window on 2-4 concurrent goroutines) whose results are all held and only compared with the reference bytes, decoded and scribbled over after the window (observed.alias_*). " +
 			"Non-trivial = pairs the decoder accepted (oracles 2,3,5 apply) + pairs it rejected although the string is one canonical item (observed.accepted / observed.rejected_grammatical over all workloads); distinct_nontrivial = observed.exh_nontrivial_pairs (exhaustive pairs are distinct by construction) " +
 			"+ the measured sets nontrivial_generated_pairs (type, string) and value (type, encoding of a round-tripped value).",
 		Assumptions: []string{
@@ -117,7 +121,7 @@ func main() {
 			"rlp.Decode on a reader of unknown length is not fed inputs claiming between 16 MiB and 2^63 bytes (it allocates what is claimed)",
 		},
 		MustObserve: []string{"value_roundtrips", "accepted", "rejected_grammatical", "rejected_ungrammatical", "reencode_checks", "suffix_checks",
-			"split_checks", "count_checks", "stream_walks", "alloc_checks", "reader_checks", "exh_strings", "mutated_strings", "hostile_strings"},
+			"split_checks", "count_checks", "stream_walks", "alloc_checks", "reader_checks", "exh_strings", "mutated_strings", "hostile_strings", "alias_windows", "alias_values_held", "alias_readers_held", "alias_windows_concurrent"},
 	})
 }
 
@@ -134,9 +138,10 @@ const (
 	pmAlloc
 	pmReader
 	pmUntyped
+	pmWindow
 )
 
-var pmNames = [...]string{"bytes", "value", "alloc", "reader", "untyped"}
+var pmNames = [...]string{"bytes", "value", "alloc", "reader", "untyped", "window"}
 
 func openProg(path string, create bool) []byte {
 	flags := os.O_RDWR
@@ -361,6 +366,13 @@ func child(r *mon.Run, args []string) {
 			time.Sleep(20 * time.Millisecond)
 			metrics.Read(s)
 			if v := s[0].Value.Uint64(); v > heapGuard {
+				// garbage the collector has not got to yet (seen on an overloaded machine) is not a
+				// runaway decode: collect, and only act on what is still reachable
+				runtime.GC()
+				metrics.Read(s)
+				if v = s[0].Value.Uint64(); v <= heapGuard {
+					continue
+				}
 				panic(fmt.Sprintf("C08 memory guard: out of memory: heap objects %d bytes > %d", v, uint64(heapGuard)))
 			}
 		}
@@ -599,6 +611,19 @@ func childGen(r *mon.Run, shard int) {
 			unitDone(r)
 		}
 	}()
+	// encoder aliasing / lifetime windows (alias.go)
+	nWin := r.Pick(16000, 400000)
+	for i := 0; i < nWin; i++ {
+		if i%nGenShards != shard {
+			continue
+		}
+		if curUnit < startUnit {
+			curUnit++
+			continue
+		}
+		checkWindow(r, i)
+		unitDone(r)
+	}
 	// fixed hostile shapes: deep nesting and many tiny elements (allocation amplification)
 	if shard == 0 {
 		depths := []int{10, 100, 1000}
@@ -666,6 +691,8 @@ func runCase(r *mon.Run, c Case) {
 		tg := targetByName(c.Type)
 		warmup(tg)
 		checkAlloc(r, tg, c.Input, c.Origin)
+	case "window":
+		checkWindow(r, c.Index)
 	case "reader":
 		tg := targetByName(c.Type)
 		warmup(tg)
@@ -713,6 +740,6 @@ func replay(r *mon.Run, path string) {
 		r.Absorb(res, "C08:replay")
 	}
 	mon.CleanWork()
-	n := r.Get("bytes_cases") + r.Get("value_roundtrips") + r.Get("alloc_checks") + r.Get("reader_checks") + r.Get("split_checks")
+	n := r.Get("bytes_cases") + r.Get("value_roundtrips") + r.Get("alloc_checks") + r.Get("reader_checks") + r.Get("split_checks") + r.Get("alias_values_held")
 	r.Finish(mon.Coverage{Evaluations: n + 1, DistinctNontrivial: 2, Rule: "replay of one recorded case"})
 }
